@@ -165,6 +165,14 @@ class SymList:
 
     def __init__(self, length, item: Callable, kind="list"):
         self.length = length
-        self.item = item
         self.kind = kind
         self.id = next(_ids)
+
+        def tagged(i, raw=item):
+            # elements are produced on demand: an array obtained here is a fresh description of the element, not the
+            # element itself, so an in-place write into it would be lost -- it is marked and the write refused
+            v = raw(i)
+            if isinstance(v, Arr):
+                v.symlist_elem = True
+            return v
+        self.item = tagged
